@@ -293,7 +293,11 @@ class _Builder:
                 elif isinstance(v, ast.FormattedValue):
                     conv = {-1: "", 115: "s", 114: "r", 97: "a"}.get(v.conversion, "?")
                     spec = self.ev(v.format_spec) if v.format_spec is not None else None
-                    parts.append(("fmt", self.ev(v.value), conv, spec))
+                    val = self.ev(v.value)
+                    if val[0] == "c" and isinstance(val[1], str) and conv in ("", "s") and spec is None:
+                        parts.append(C(val[1]))
+                    else:
+                        parts.append(("fmt", val, conv, spec))
             if all(p[0] == "c" for p in parts):
                 return C("".join(str(p[1]) for p in parts))
             return ("fstr", tuple(parts))
